@@ -1161,7 +1161,7 @@ func init() {
 		Rule: "each case executes ONE seeded history under 6 schedules of {commit, drop cache, reopen from ledger}: never-until-end, commit every operation, commit+drop-cache every 3, full reopen every 5 (new storage, roots re-obtained by id, child handles re-resolved), drop-cache-only every 2, PRNG mix; " +
 			"in every schedule every return value is compared with the model and the structure walked; all schedules end with a commit and the final registers must be byte-identical across schedules (histories without composite-typed maps) or content-identical (cold rebuild equal to the model; composite bucket). " +
 			"non-trivial = multi-slab container and slabs were re-read from the ledger under the schedules; distinct by hash(config, operation list)",
-		Assumptions: []string{"the composite bucket is decided at case creation (no composite type info is ever created in the byte-equality bucket)", "exploration, not proof"},
+		Assumptions: []string{"the composite bucket is decided at case creation (no composite type info is ever created in the byte-equality bucket)", "operations are addressed to containers: root handles survive evictions, handles of nested containers are re-acquired after an eviction or reopen", "exploration, not proof"},
 		Mandatory:   []string{"schedules-compared", "byte-equal-register-comparisons", "content-equal-register-comparisons", "ledger-reads-under-schedules"},
 	})
 }
